@@ -221,6 +221,9 @@ func CompareEntry(c *cat.Catalog, dry bool, idx int, want, got *Entry) []Diverge
 			add("exec.outcome", fmt.Sprintf("%s: %s#%d outcome want %s got %s", ctx, k.F, k.N, w.O, g.O), false)
 		}
 		fn := c.Fns[k.F]
+		if got.NoArgs {
+			continue
+		}
 		for j := range fn.Ps {
 			var wa, ga []univ.Prov
 			if j < len(w.Args) {
@@ -285,7 +288,7 @@ func CompareEntry(c *cat.Catalog, dry bool, idx int, want, got *Entry) []Diverge
 		}
 	}
 	if want.Snap != nil && got.Snap != nil {
-		ds = append(ds, compareSnap(c, dry, idx, ctx, want.Snap, got.Snap)...)
+		ds = append(ds, compareSnap(c, dry || got.NoArgs, idx, ctx, want.Snap, got.Snap)...)
 	}
 	if want.Viz != nil && got.Dot != "" {
 		ds = append(ds, CompareViz(idx, ctx, want.Viz, got.Dot)...)
